@@ -156,11 +156,15 @@ fn c20_main(tier: Tier) -> i32 {
             "scheduling_points": points,
             "scripts": rr.n_cases,
             "preemption_bound_completed": bound,
-            "preemption_bound_note": if tier == Tier::Quick { "bound 1 on the 36 core scripts (every packing without end; every packing x every end kind after two PDUs)" } else { "bound 2 on the 36 core scripts, bound 1 on the other 90 scripts (every end kind at every position 0..3)" },
+            "preemption_bound_note": ({
+                let all = c20::scripts();
+                let core = all.iter().filter(|s| c20::is_core(s)).count();
+                if tier == Tier::Quick { format!("bound 1 on the {} core scripts (every script without end; every script whose end comes after two PDUs)", core) } else { format!("bound 2 on the {} core scripts, bound 1 on the other {} scripts (every end kind at every position 0..3)", core, all.len() - core) }
+            }),
             "max_preemptions_used": maxp,
             "evaluations": schedules,
             "distinct_nontrivial": rr.nontrivial,
-            "rule": "every schedule (<= bound preemptions) of {receive thread, environment script, GUI actor} for each of the environment scripts = 7 packings of 3 bitmap PDUs into TLS records / TCP segments (one per record, two+one, three in one, a PDU across two records, a record across two segments, with a pause, with update-less PDUs of both length forms riding along) x {no end, disconnect ultimatum, close_notify, abrupt close, undecodable PDU of RdpError kind, undecodable PDU of I/O kind, header-only TPKT frame} at every position 0..3. states/transitions = distinct abstract configurations (runnable set, running task, queue length, bytes consumed, closed flag, events forwarded, dead-select count, script and GUI positions) and (configuration, chosen task) edges observed at scheduling points, summed over scripts.",
+            "rule": "every schedule (<= bound preemptions) of {receive thread, environment script, GUI actor} for each of the environment scripts = 9 packings of 3 bitmap PDUs into TLS records / TCP segments (one per record, two+one, three in one, a PDU across two records, a record across two segments, with a pause, with update-less PDUs of both length forms riding along, with a 20 kB second PDU spanning two records, with a re-activation after the first PDU whose server PDUs are packed two and four to a record) x {no end, disconnect ultimatum, close_notify, abrupt close, undecodable PDU of RdpError kind, undecodable PDU of I/O kind, header-only TPKT frame} at every position 0..3. states/transitions = distinct abstract configurations (runnable set, running task, queue length, bytes consumed, closed flag, events forwarded, dead-select count, script and GUI positions) and (configuration, chosen task) edges observed at scheduling points, summed over scripts.",
             "exhaustive": true,
             "violations_detail": viol_json,
             "known_findings_matched": known,
@@ -192,6 +196,19 @@ fn c20_replay(v: &serde_json::Value, path: &str) -> Option<i32> {
         return None;
     }
     runner::install_panic_hook();
+    if v["script_index"].as_u64() == Some(c20::ASSUMPTION_INDEX) {
+        return Some(match c20::socket_assumption().violation.map(|v| (v.sig, v.detail)) {
+            Some((sig, d)) => {
+                println!("violation: {} :: {}", sig, d);
+                println!("VIOLATION property=C20 replay={}", path);
+                1
+            }
+            None => {
+                println!("replay: no violation reproduced");
+                0
+            }
+        });
+    }
     let idx = v["script_index"].as_u64()? as usize;
     let choices: Vec<usize> = v["choices"].as_array()?.iter().map(|x| x.as_u64().unwrap_or(0) as usize).collect();
     let script = c20::scripts()[idx];
